@@ -47,6 +47,31 @@ var c11IntLits = []string{"0", "1", "-1", "2", "3", "7", "8", "63", "64", "65", 
 var c11FloatLits = []string{"0.0", "1.0", "-1.0", "0.5", "1e308", "1e309", "1e-324", "1e-400", "3.4e38", "1e39", "0x1p-1074", "1e1000"}
 var c11StrLits = []string{`""`, `"a"`, `"\x00"`, `"\xff\xfe"`, "`raw`", `"héllo"`, `"\U0010ffff"`, `"aaaaaaaaaaaaaaaaaaaaaaaaaaaaaaaaaaaaaaaaaaaaaaaaaaaaaaaaaaaaaaaaaaaaaaaaaaaaaaaaaaaaaaaaaaaaaaaaaaaaaaaaaaaaaaaaaaaaaaaaaaaaaaaa"`}
 
+// c11Uniform draws an index in [0,n) uniformly (rapid's integer generators
+// favour small and boundary values, which would starve most templates and
+// seeds); built from fair bits, so it still shrinks towards 0.
+func c11Uniform(rt *rapid.T, n int, label string) int {
+	if n <= 1 {
+		return 0
+	}
+	bits := 0
+	for 1<<bits < n {
+		bits++
+	}
+	v := 0
+	for b := bits + 3; b >= 0; b-- { // 3 extra bits keep the modulo bias below 1/8
+		if rapid.Bool().Draw(rt, fmt.Sprintf("%s.b%d", label, b)) {
+			v |= 1 << b
+		}
+	}
+	return v % n
+}
+
+// c11Pick draws one of items uniformly.
+func c11Pick[T any](rt *rapid.T, items []T, label string) T {
+	return items[c11Uniform(rt, len(items), label)]
+}
+
 func c11Lines(s string) []string { return strings.SplitAfter(s, "\n") }
 
 // c11Mutate applies one drawn mutation to body and returns the new text and a
@@ -57,7 +82,7 @@ func c11Mutate(rt *rapid.T, body string, k int, donor func() string) (string, st
 	// Mutations stay behind the package clause (a broken clause is rejected by
 	// the message validation before anything interesting runs) - except rarely.
 	lo, loLine := 0, 1
-	if rapid.IntRange(0, 19).Draw(rt, lbl("anywhere")) != 0 {
+	if c11Uniform(rt, 20, lbl("anywhere")) != 0 {
 		for i, t := range toks {
 			if t.Tok == token.PACKAGE && i+1 < len(toks) {
 				lo = toks[i+1].End
@@ -66,11 +91,11 @@ func c11Mutate(rt *rapid.T, body string, k int, donor func() string) (string, st
 			}
 		}
 	}
-	kind := rapid.SampledFrom([]string{
+	kind := c11Pick(rt, []string{
 		"tokrep", "tokrep", "tokrep", "lit", "lit", "lit", "op", "op", "op", "ident", "ident",
 		"tokdel", "tokins", "tokins", "tokswap", "linedel", "linedup", "lineswap", "splice", "splice",
 		"byte", "bytedel", "bytedup", "wrap", "repeat",
-	}).Draw(rt, lbl("kind"))
+	}, lbl("kind"))
 	pickTok := func(pred func(c11Tok) bool, l string) int {
 		var idx []int
 		for i, t := range toks {
@@ -81,7 +106,7 @@ func c11Mutate(rt *rapid.T, body string, k int, donor func() string) (string, st
 		if len(idx) == 0 {
 			return -1
 		}
-		return idx[rapid.IntRange(0, len(idx)-1).Draw(rt, lbl(l))]
+		return idx[c11Uniform(rt, len(idx), lbl(l))]
 	}
 	repl := func(t c11Tok, with string) string { return body[:t.Off] + with + body[t.End:] }
 	switch kind {
@@ -90,7 +115,7 @@ func c11Mutate(rt *rapid.T, body string, k int, donor func() string) (string, st
 		if i < 0 {
 			break
 		}
-		w := rapid.SampledFrom(c11Dict).Draw(rt, lbl("w"))
+		w := c11Pick(rt, c11Dict, lbl("w"))
 		return repl(toks[i], w), fmt.Sprintf("tokrep@%d %q->%q", toks[i].Off, body[toks[i].Off:toks[i].End], w)
 	case "lit":
 		i := pickTok(func(t c11Tok) bool {
@@ -102,11 +127,11 @@ func c11Mutate(rt *rapid.T, body string, k int, donor func() string) (string, st
 		var w string
 		switch toks[i].Tok {
 		case token.INT, token.CHAR:
-			w = rapid.SampledFrom(append(append([]string{}, c11IntLits...), c11FloatLits[:3]...)).Draw(rt, lbl("w"))
+			w = c11Pick(rt, append(append([]string{}, c11IntLits...), c11FloatLits[:3]...), lbl("w"))
 		case token.FLOAT:
-			w = rapid.SampledFrom(append(append([]string{}, c11FloatLits...), c11IntLits[:6]...)).Draw(rt, lbl("w"))
+			w = c11Pick(rt, append(append([]string{}, c11FloatLits...), c11IntLits[:6]...), lbl("w"))
 		default:
-			w = rapid.SampledFrom(c11StrLits).Draw(rt, lbl("w"))
+			w = c11Pick(rt, c11StrLits, lbl("w"))
 		}
 		if toks[i].Tok != token.STRING {
 			w = "(" + w + ")"
@@ -134,7 +159,7 @@ func c11Mutate(rt *rapid.T, body string, k int, donor func() string) (string, st
 				}
 			}
 		}
-		w := rapid.SampledFrom(c11OpClasses[cls]).Draw(rt, lbl("w")).String()
+		w := c11Pick(rt, c11OpClasses[cls], lbl("w")).String()
 		return repl(toks[i], w), fmt.Sprintf("op@%d %q->%q", toks[i].Off, body[toks[i].Off:toks[i].End], w)
 	case "ident":
 		i := pickTok(func(t c11Tok) bool { return t.Tok == token.IDENT }, "ii")
@@ -160,7 +185,7 @@ func c11Mutate(rt *rapid.T, body string, k int, donor func() string) (string, st
 		if i < 0 {
 			break
 		}
-		w := rapid.SampledFrom(c11Dict).Draw(rt, lbl("w"))
+		w := c11Pick(rt, c11Dict, lbl("w"))
 		return body[:toks[i].Off] + w + " " + body[toks[i].Off:], fmt.Sprintf("tokins@%d %q", toks[i].Off, w)
 	case "tokswap":
 		i := pickTok(nil, "si")
@@ -183,7 +208,7 @@ func c11Mutate(rt *rapid.T, body string, k int, donor func() string) (string, st
 		case "linedel":
 			ls = append(ls[:i:i], ls[i+1:]...)
 		case "linedup":
-			n := rapid.SampledFrom([]int{1, 1, 1, 2, 3, 50}).Draw(rt, lbl("n"))
+			n := c11Pick(rt, []int{1, 1, 1, 2, 3, 50}, lbl("n"))
 			var dup []string
 			for x := 0; x < n; x++ {
 				dup = append(dup, ls[i])
@@ -213,7 +238,7 @@ func c11Mutate(rt *rapid.T, body string, k int, donor func() string) (string, st
 			break
 		}
 		p := rapid.IntRange(lo, len(body)-1).Draw(rt, lbl("p"))
-		b := byte(rapid.SampledFrom([]int{0, '\n', ' ', '{', '}', '(', ')', '"', '`', '\'', '\\', '/', '*', '0', '9', 'a', 0x80, 0xff, ';', '.', '-'}).Draw(rt, lbl("b")))
+		b := byte(c11Pick(rt, []int{0, '\n', ' ', '{', '}', '(', ')', '"', '`', '\'', '\\', '/', '*', '0', '9', 'a', 0x80, 0xff, ';', '.', '-'}, lbl("b")))
 		return body[:p] + string([]byte{b}) + body[p+1:], fmt.Sprintf("byte@%d=%#x", p, b)
 	case "bytedel":
 		if len(body) < 2 || lo > len(body)-2 {
@@ -243,8 +268,8 @@ func c11Mutate(rt *rapid.T, body string, k int, donor func() string) (string, st
 		if i < 0 {
 			break
 		}
-		n := rapid.SampledFrom([]int{1, 2, 10, 100, 1000, 20000}).Draw(rt, lbl("n"))
-		w := rapid.SampledFrom([][2]string{{"(", ")"}, {"-(", ")"}, {"+(", ")"}, {"^(", ")"}, {"!(", ")"}, {"func() int { return ", "}()"}, {"[]int{", "}[0]"}, {"*&[]int{", "}[0]"}}).Draw(rt, lbl("w"))
+		n := c11Pick(rt, []int{1, 2, 10, 100, 1000, 20000}, lbl("n"))
+		w := c11Pick(rt, [][2]string{{"(", ")"}, {"-(", ")"}, {"+(", ")"}, {"^(", ")"}, {"!(", ")"}, {"func() int { return ", "}()"}, {"[]int{", "}[0]"}, {"*&[]int{", "}[0]"}}, lbl("w"))
 		t := toks[i]
 		return body[:t.Off] + strings.Repeat(w[0], n) + body[t.Off:t.End] + strings.Repeat(w[1], n) + body[t.End:], fmt.Sprintf("wrap@%d %q x%d", t.Off, w[0], n)
 	case "repeat":
@@ -258,7 +283,7 @@ func c11Mutate(rt *rapid.T, body string, k int, donor func() string) (string, st
 		if j >= len(toks) {
 			j = len(toks) - 1
 		}
-		n := rapid.SampledFrom([]int{2, 3, 10, 100, 1000, 10000}).Draw(rt, lbl("n"))
+		n := c11Pick(rt, []int{2, 3, 10, 100, 1000, 10000}, lbl("n"))
 		seg := body[toks[i].Off:toks[j].Off]
 		if len(seg)*n > 400_000 {
 			n = 400_000/(len(seg)+1) + 1
@@ -279,10 +304,10 @@ func c11DrawMutant(rt *rapid.T) c11Case {
 			nFT++
 		}
 	}
-	if nFT < len(seeds) && rapid.IntRange(0, 99).Draw(rt, "pool") < 15 {
-		si = rapid.IntRange(nFT, len(seeds)-1).Draw(rt, "seed")
+	if nFT < len(seeds) && c11Uniform(rt, 100, "pool") < 15 {
+		si = nFT + c11Uniform(rt, len(seeds)-nFT, "seed")
 	} else {
-		si = rapid.IntRange(0, nFT-1).Draw(rt, "seed")
+		si = c11Uniform(rt, nFT, "seed")
 	}
 	s := seeds[si]
 	c := c11Case{Src: "mut", Mode: s.Mode, Name: s.Name, Path: s.Path, Note: []string{s.Rel}}
@@ -291,12 +316,12 @@ func c11DrawMutant(rt *rapid.T) c11Case {
 	if s.NGno > 1 {
 		fi = rapid.IntRange(0, s.NGno-1).Draw(rt, "file")
 	}
-	nops := rapid.SampledFrom([]int{0, 1, 1, 1, 1, 2, 2, 2, 3, 4}).Draw(rt, "nops")
+	nops := c11Pick(rt, []int{0, 1, 1, 1, 1, 2, 2, 2, 3, 4}, "nops")
 	body := c.Files[fi].Body
 	for k := 0; k < nops; k++ {
 		var d string
 		body, d = c11Mutate(rt, body, k, func() string {
-			return seeds[rapid.IntRange(0, nFT-1).Draw(rt, fmt.Sprintf("donor%d", k))].Files[0].Body
+			return seeds[c11Uniform(rt, nFT, fmt.Sprintf("donor%d", k))].Files[0].Body
 		})
 		c.Note = append(c.Note, d)
 	}
@@ -316,6 +341,6 @@ func c11DrawMutant(rt *rapid.T) c11Case {
 			}
 		}
 	}
-	c.Gas = rapid.SampledFrom([]int64{3_000_000, 10_000_000, 10_000_000, 30_000_000, 100_000_000}).Draw(rt, "gas")
+	c.Gas = c11Pick(rt, []int64{3_000_000, 10_000_000, 10_000_000, 30_000_000, 100_000_000}, "gas")
 	return c
 }
